@@ -72,6 +72,34 @@ def check(ctx):
     for k, c, v, t in zip(sorted(wit), wc, wv, wtr):
         if k in known and v is not None and not v.get("C05", True) and classify(c, v.get("rej", []), t) == {k}:
             ctx.known.append("id=%s witness still exhibits it (+%d generated histories): %s" % (k, len(hits.get(k, [])), known[k]["what"][:170]))
+    # progress indicators as every callback sees them (library-only run with cfg prog=1): per transaction, request_progress never decreases;
+    # response_progress never decreases except back to LINE (re-armed for the status line after an interim 1xx response)
+    pcases = ["\t".join([f[0], f[1] + ",prog=1"] + f[2:]) for f in (c.split("\t") for c in cases)]
+    po, pbad = sconnp.run_impl(ctx, pcases, tag="progress")
+    nback = 0
+    import re
+    ev_re = re.compile(r"h(\d+)\.(-?\d+)~(\d+)\.(\d+)")
+    for i, o in enumerate(po if not pbad else []):
+        last = {}
+        for h, t, rq, rs in ev_re.findall(o.split("||")[0]):
+            h, t, rq, rs = int(h), int(t), int(rq), int(rs)
+            if t in last:
+                lrq, lrs = last[t]
+                why = None
+                if rq < lrq:
+                    why = "request_progress of transaction %d went from %d back to %d (seen by hook %d)" % (t, lrq, rq, h)
+                elif rs < lrs and rs != 1:      # back to LINE: the parser re-arms for the final status line after an interim 1xx response
+                    why = "response_progress of transaction %d went from %d back to %d (seen by hook %d)" % (t, lrs, rs, h)
+                if why:
+                    nback += 1
+                    if nback <= 2:
+                        bad.append(i)
+                        vf.violation(ctx, "progress-%d" % i, {"kind": "progress-indicator-moved-backwards", "suite": "S-connp", "case": cases[i], "problem": why,
+                                                              "callback_log_with_progress": o.split("||")[0][-2500:], "theorem": "Properties_C05.v (C05_request_progress_monotone / C05_response_progress_monotone)"})
+                    break
+            last[t] = (rq, rs)
+    ctx.cov["suites"]["S-connp"]["progress_checked_histories"] = len(po) if not pbad else 0
+    ctx.cov["suites"]["S-connp"]["progress_went_backwards"] = nback
     pi = [sconnp.project(o, PROP) for o in impl]
     pm = [sconnp.project(o, PROP) for o in model]
     mm = [i for i in range(min(len(pi), len(pm))) if pi[i] != pm[i]] if not crash else []
